@@ -223,3 +223,117 @@ func c02Run(t *testing.T, c c02Case, probe bool) int {
 }
 
 func hasSuffix(s, suf string) bool { return len(s) >= len(suf) && s[len(s)-len(suf):] == suf }
+
+// Desired children that arrive with owner references of their own (a template cloned from an
+// object somebody else owns, or an observed child echoed back): whatever the hook wrote there,
+// every object metacontroller gets created carries exactly one controller reference, to the
+// parent, and references that belong to others are not lost on the way. M-OWN judges the
+// requests; this test supplies the inputs.
+func TestVerif_C02_DesiredOwnerRefs(t *testing.T) {
+	for _, refs := range []string{"foreign-controller", "foreign-plain", "parent-echo", "parent-wrong-uid", "two-foreign-plain"} {
+		for _, ssa := range []bool{false, true} {
+			for _, existing := range []bool{false, true} {
+				for _, kind := range []string{"Widget", "ConfigMap"} {
+					refs, ssa, existing, kind := refs, ssa, existing, kind
+					id := fmt.Sprintf("c02-desired-ownerrefs-%s-ssa%v-existing%v-%s", refs, ssa, existing, lower(kind))
+					if !sim.WantCase(id) {
+						continue
+					}
+					t.Run(id, func(t *testing.T) {
+						t.Parallel()
+						runC02OwnerRefs(t, id, refs, ssa, existing, kind)
+					})
+				}
+			}
+		}
+	}
+}
+
+func runC02OwnerRefs(t *testing.T, id, refs string, ssa, existing bool, kind string) {
+	rep := sim.R()
+	rep.Begin("C02", id)
+	uid := uniqueID("o")
+	sc := &scenario{ID: uid, SSA: ssa, Kinds: []kindCfg{{Kind: kind, Method: "InPlace"}}}
+	kid := kidCfg{Kind: kind, Name: "kid-" + uid, Value: "v1"}
+	plain := kidCfg{Kind: kind, Name: "plain-" + uid, Value: "v1"}
+	sc.Kids = []kidCfg{kid, plain}
+	r := prepareScenario(sc)
+	defer r.close()
+	r.w.caseID = id
+	s := r.w.sim
+	ri := kindInfo(kind)
+	ref := func(name, uid string, controller bool) interface{} {
+		m := sim.Obj{"apiVersion": "apps/v1", "kind": "ReplicaSet", "name": name, "uid": uid}
+		if controller {
+			m["controller"] = true
+			m["blockOwnerDeletion"] = true
+		}
+		return m
+	}
+	var want []interface{}
+	switch refs {
+	case "foreign-controller":
+		want = []interface{}{ref("rs", "rs-"+uid, true)}
+	case "foreign-plain":
+		want = []interface{}{ref("rs", "rs-"+uid, false)}
+	case "two-foreign-plain":
+		want = []interface{}{ref("rs", "rs-"+uid, false), ref("rs2", "rs2-"+uid, false)}
+	case "parent-echo":
+		want = []interface{}{sim.Obj{"apiVersion": sc.parentInfo().APIVersion(), "kind": sc.parentInfo().Kind, "name": sc.parentName(), "uid": sim.UID(r.parent), "controller": true, "blockOwnerDeletion": true}}
+	case "parent-wrong-uid":
+		want = []interface{}{sim.Obj{"apiVersion": sc.parentInfo().APIVersion(), "kind": sc.parentInfo().Kind, "name": sc.parentName(), "uid": "previous-incarnation-" + uid, "controller": true, "blockOwnerDeletion": true}}
+	}
+	kid.MetaExtra = map[string]interface{}{"ownerReferences": want}
+	r.kids = []kidCfg{kid, plain}
+	s.ExtMutate(sc.parentInfo().GVR(), sc.ns(), sc.parentName(), func(o sim.Obj) {
+		o["spec"] = sc.parentObject(r.kids, r.rev, r.extra)["spec"]
+	})
+	if existing {
+		s.MustCreate(ri.GVR(), r.asCreatedByMC(kidCfg{Kind: kind, Name: kid.Name, Value: "old"}, "old"))
+	}
+	if err := r.w.start(); err != nil {
+		inconclusive(t, "C02", id, err)
+		return
+	}
+	defer r.w.flushCounters("C02")
+	nsync := 0
+	for round := 0; round < 5; round++ {
+		if round > 0 {
+			r.w.q.Add(sc.parentKey())
+		}
+		syncs, ok := r.w.round()
+		if !ok {
+			inconclusive(t, "C02", id, r.w.watchdog)
+			return
+		}
+		nsync += len(syncs)
+	}
+	// what exists now carries exactly one controller reference (the parent's); the sibling without
+	// references of its own is there in any case
+	cns := sc.childNS(kid)
+	for _, n := range []string{kid.Name, plain.Name} {
+		cur := s.Peek(ri.GVR(), cns, n)
+		if cur == nil {
+			if n == plain.Name {
+				rep.Violation("C02", id, "sibling-not-created", "the desired child without owner references of its own was not created", map[string]interface{}{"refs": refs})
+			}
+			continue
+		}
+		if existing && n == kid.Name {
+			// an existing child is *updated* towards what the hook specified, owner references
+			// included (that is C05's merge; a hook that names another incarnation of the parent
+			// there gets what it asked for); the birth rule is about creations
+			continue
+		}
+		nc := 0
+		for _, or := range sim.OwnerRefs(cur) {
+			if or.Controller {
+				nc++
+			}
+		}
+		if c := sim.ControllerOf(cur); nc != 1 || c == nil || c.UID != sim.UID(r.parent) {
+			rep.Violation("C02", id, "child-exists-without-parent-controller-ref:"+refs, fmt.Sprintf("%s exists with ownerReferences %v; want exactly one controller reference, to the parent", n, sim.OwnerRefs(cur)), map[string]interface{}{"refs": refs, "ssa": ssa, "existing": existing})
+		}
+	}
+	rep.Case("C02", id, nsync > 0, id, map[string]interface{}{"refs": refs, "ssa": ssa, "existing": existing, "kind": kind, "syncs": nsync, "log": sim.DescribeLog(s.Log(), true)})
+}
